@@ -157,6 +157,16 @@ def _brief(a, lim=160):
     return r if len(r) <= lim else r[:lim] + '...'
 
 
+def _contains_object(c, depth=0):
+    for x in c:
+        if isinstance(x, (list, tuple)):
+            if depth < 4 and _contains_object(x, depth + 1):
+                return True
+        elif not isinstance(x, (int, float, complex, str, np.generic, np.ndarray, type(None))):
+            return True
+    return False
+
+
 class CallbackRecorder(object):
     """A user-style callback object (the library calls whichever on_* methods exist)."""
 
@@ -296,6 +306,8 @@ class Monitor(object):
         items = list(enumerate(args)) + list(kwargs.items())
         for k, a in items:
             if isinstance(a, (list, tuple)):
+                if _contains_object(a):
+                    continue            # e.g. out=(t,): a tuple of Fxp objects is not an input container of numbers
                 try:
                     out.append((k, a, copy.deepcopy(a)))
                 except Exception:
